@@ -46,6 +46,7 @@ fn main() {
         "C16" => main_for::<props::c16::P>(rest),
         "C17" => main_for::<props::c17::P>(rest),
         "C18" => main_for::<props::c18::P>(rest),
+        "C19" => main_for::<props::c19::P>(rest),
         "C20" => main_for::<props::c20::P>(rest),
         _ => {
             eprintln!("unknown property {id}");
